@@ -1,6 +1,6 @@
 (* C17: the query schedule and the deadline, as invariants of the reference machine
    (Model/HostresSpec.v) over arbitrary histories.  Together with Proofs/HostresRefine.v they
-   hold of the model of the code on every history that is never late.  No axioms. *)
+   hold of the model of the code on every well-formed history.  No axioms. *)
 From Coq Require Import List NArith Bool Lia Arith.
 From Mdns Require Import Bytes ParamsHostres HostresBase HostresModel HostresSpec HostresPinned.
 Import ListNotations.
